@@ -133,7 +133,7 @@ def run(cx, chk):
         # what is written starts with (contains, built first) the key
         if good_all and keyv is not None:
             key_core = keyv
-            while key_core[0] == "call" and last(key_core[1]) in ("must_use", "deref", "as_str", "as_ref", "borrow") and key_core[2]:
+            while key_core[0] == "call" and last(key_core[1]) in ("must_use", "deref", "as_str", "as_ref", "borrow", "as_bytes", "as_slice", "clone", "to_owned", "to_string", "into_bytes") and key_core[2]:
                 key_core = key_core[2][0]
             okw = False
             for l in leaves:
@@ -216,6 +216,32 @@ def run(cx, chk):
         ext = any(any(s_ == ("const", "str", "ebnf") for s_ in walk(e)) for i in rb.reach for (e, v, d) in rb.atoms(i))
         rets = [norm(rb.expr_call(d[3])) if d[2] == "call" else norm(rb.expr_rv(d[3])) for d in rb.defs.get(0, [])]
         prop = any(is_call(r, "run_on_single_file") for r in rets) and any(is_call(r, "try_for_each") or is_call(r, "from_residual") for r in rets)
+        if not (single and ext and prop):
+            # the same three facts read off the semantic summary (closures of modelled combinators inlined; loops as trips)
+            from .. import sem as _sem
+            try:
+                rsm = _sem.Sem(cx, cg, inline=lambda p_: False, max_leaves=2000).summarize(rp[0])
+            except _sem.SemLimit:
+                rsm = None
+            if rsm is not None:
+                allv = list(rsm.leaves) + list(rsm.loopbacks)
+                has_ebnf = lambda t_: any(s_ == ("const", "str", "ebnf") for s_ in walk(t_))
+                s_single = s_ext = s_prop_file = s_prop_dir = False
+                for l in allv:
+                    for ev in l.trace:
+                        t_ = ev[0]
+                        if t_[0] == "call" and last(t_[1]) == "run_on_single_file" and len(t_[2]) == 3:
+                            s_single = any(is_call(x_, "with_extension") for x_ in walk(t_[2][2]))
+                            if any(has_ebnf(a_) for (a_, _) in l.assume[:ev[1]]):
+                                s_ext = True
+                            if l.kind == "return" and l.ret is not None and any(x_ == t_ for x_ in walk(l.ret)):
+                                s_prop_file = True
+                        if t_[0] == "call" and last(t_[1]) in ("try_for_each", "try_fold") and l.kind == "return" and l.ret is not None and any(x_ == t_ for x_ in walk(l.ret)):
+                            s_prop_dir = True
+                    for (a_, v_) in l.assume:
+                        if a_[0] == "discr" and is_call(a_[1], "run_recursively") and v_ == 1 and l.kind == "return" and l.ret is not None and l.ret[0] == "agg" and l.ret[2] == "Err":
+                            s_prop_dir = True
+                single, ext, prop = single or s_single, ext or s_ext, prop or (s_prop_file and s_prop_dir)
         if single and ext and prop:
             chk.ok("C18.walk", "run_recursively", {"per_file": "run_on_single_file(source, source.with_extension(\"rs\"))", "filter": "extension == \"ebnf\"", "errors": "propagated (try_for_each / ?)"})
         else:
